@@ -70,10 +70,19 @@ def parseCall (g : Cfg) (ws : List String) : Option Call := do
     if off > g.fsize then none else some (.sendfile off len ks)
   | _ => none
 
-def doCall (g : Cfg) (s : S) : Call → S × Ret
+def rawCall (g : Cfg) (s : S) : Call → S × Ret
   | .write b k => write g s b k
   | .writev bs k => writev g s bs k
   | .sendfile off len ks => sendfile g s off len ks
+
+/-- a call of the sequential harness: if it flipped the flag (fatal error) its own goroutine runs the
+    teardown right after the unlock -/
+def doCall (g : Cfg) (s : S) (c : Call) : S × Ret :=
+  let r := match c with
+    | .write b k => write g s b k
+    | .writev bs k => writev g s bs k
+    | .sendfile off len ks => sendfile g s off len ks
+  (teardown r.1, r.2)
 
 def parseMode (s : String) : Option Mode :=
   if s == "lt" then some .lt else if s == "et" then some .et else if s == "oneshot" then some .oneshot else none
@@ -114,7 +123,7 @@ partial def loop (h : IO.FS.Stream) (d : DS) : IO Unit := do
         rs := rs ++ [showRet r]
         let (d', _) := observe d s
         d := d'
-      let (d', str) := observe { d with nctl := 0 } (if dial then evEnd g d.s else register g d.s)
+      let (d', str) := observe { d with nctl := 0 } (if dial then teardown (evEnd g d.s) else register g d.s)
       if d'.s.hung then IO.println hungLine; loop h { d' with dead := true }
       else IO.println s!"R ow={String.intercalate ";" rs} {str}"; loop h d'
   | "O" :: rest =>
@@ -141,7 +150,7 @@ partial def loop (h : IO.FS.Stream) (d : DS) : IO Unit := do
                         ((observe d1 s2).1, showRet r)
                       else (d1, "-")
           | none => (d1, "-")
-        let (d3, str) := observe { d2 with nctl := d.nctl } (evEnd d.g d2.s)
+        let (d3, str) := observe { d2 with nctl := d.nctl } (teardown (evEnd d.g d2.s))
         if d3.s.hung then IO.println hungLine; loop h { d3 with dead := true }
         else
           -- a racing call of another goroutine waits for the conn mutex: it runs after the poller's tail
@@ -154,9 +163,20 @@ partial def loop (h : IO.FS.Stream) (d : DS) : IO Unit := do
           let dstr := (if dl.1 then "o" else "") ++ (if dl.2.1 then "i" else "") ++ (if dl.2.2 then "e" else "")
           IO.println s!"R deliv={if dstr == "" then "-" else dstr} cb={cbs} rc={rcs} {str}"; loop h d4
       | _, _, _ => IO.println "bad-op"; loop h { d with dead := true }
-    | ["close"] =>
-      let (d', str) := observe d (close d.s)
-      IO.println s!"R {str}"; loop h d'
+    | "close" :: more =>
+      -- Close: flip; a racing call of another goroutine inside the teardown window; teardown
+      let race : Option (Option Call) := match Drv.field more "race" with
+        | none => if more.isEmpty then some none else none
+        | some c => (parseCall d.g (c.splitOn "/")).map some
+      match race with
+      | none => IO.println "bad-op"; loop h { d with dead := true }
+      | some race =>
+        let s1 := flipClosed d.s
+        let (s2, rcs) := match race with
+          | some c => let (s2, r) := rawCall d.g s1 c; (s2, showRet r)
+          | none => (s1, "-")
+        let (d', str) := observe d (teardown s2)
+        IO.println s!"R rc={rcs} {str}"; loop h d'
     | ["deadline", t] =>
       if t == "far" || t == "0" then
         let (d', str) := observe d (setWriteDeadline d.s (t == "0"))
@@ -164,7 +184,7 @@ partial def loop (h : IO.FS.Stream) (d : DS) : IO Unit := do
       else IO.println "bad-op"; loop h { d with dead := true }
     | ["fire"] =>
       -- the deadline expires now: only a timer that is set on an open conn is forced by the harness
-      let s := if d.s.wTimer && !d.s.closed then timerFire (timerExpire d.s) else d.s
+      let s := if d.s.wTimer && !d.s.closed then teardown (timerFire (timerExpire d.s)) else d.s
       let (d', str) := observe d s
       IO.println s!"R {str}"; loop h d'
     | _ =>
